@@ -42,7 +42,19 @@ S(i) == ToString(i)
 Abs(x) == IF x < 0 THEN -x ELSE x
 Shift(p) == " dx=" \o S(p.d[1]) \o " dy=" \o S(p.d[2]) \o " dz=" \o S(p.d[3])
 Helm(p) == "helmert x=" \o S(p.d[1]) \o " y=" \o S(p.d[2]) \o " z=" \o S(p.d[3])
-Molo(p, form) == "molodensky ellps_0=" \o p.e0 \o " ellps_1=" \o p.e1 \o Shift(p) \o (IF form = "abridged" THEN " abridged" ELSE "")
+\* how the two ellipsoids are written: both indexed; the source as plain `ellps`; the source left at its default
+\* (only where the source IS the default ellipsoid, GRS80)
+Spellings(p) == {"e0e1", "ellps"} \cup (IF p.e0 = "GRS80" THEN {"e1"} ELSE {})
+EllArgs(p, sp) == CASE sp = "e0e1"  -> " ellps_0=" \o p.e0 \o " ellps_1=" \o p.e1
+                    [] sp = "ellps" -> " ellps=" \o p.e0 \o " ellps_1=" \o p.e1
+                    [] sp = "e1"    -> " ellps_1=" \o p.e1
+Abr(form) == IF form = "abridged" THEN " abridged" ELSE ""
+MoloSp(p, form, sp) == "molodensky" \o EllArgs(p, sp) \o Shift(p) \o Abr(form)
+Molo(p, form) == MoloSp(p, form, "e0e1")
+\* the same operator as a macro: the body carries the shift, the caller gives the ellipsoids (C04: an invocation means
+\* its expansion; the expansion is MoloSp(p, form, sp) up to the order of the arguments)
+MacroBody(p, form) == "molodensky" \o Shift(p) \o Abr(form)
+MacroCall(p, sp) == "m:molo" \o EllArgs(p, sp)
 \* forward: from geographic on e0 to cartesian in the frame of e1; inverse: from geographic on e1 to cartesian in the frame of e0
 RouteA(p, form, dir) == IF dir = "F" THEN Molo(p, form) \o " | cart ellps=" \o p.e1
                         ELSE "inv " \o Molo(p, form) \o " | cart ellps=" \o p.e0
@@ -72,10 +84,16 @@ CoverInv == /\ \E la \in Lats : la < 0
             /\ \E i \in 1..Len(Pairs) : Pairs[i].e0 # "GRS80" /\ Pairs[i].e1 # "GRS80"     \* neither side the default ellipsoid
             /\ \E i \in 1..Len(Pairs) : Pairs[i].da = 0                                   \* a pure shift
 ClassInv == ClassMm("full") = 50 /\ ClassMm("abridged") = 1400 /\ ClassMm("full") < ClassMm("abridged")
+SpellInv == \A i \in 1..Len(Pairs) : "e0e1" \in Spellings(Pairs[i]) /\ "ellps" \in Spellings(Pairs[i])
 CountInv == Cardinality(Lons \X Lats \X Hs) = Cardinality(Lons) * Cardinality(Lats) * Cardinality(Hs)
 
 Emit == (cfg # None /\ pt = None) =>
     PrintT(<<"MOLO", ToJson([a |-> RouteA(Pairs[cfg.i], cfg.form, cfg.dir), b |-> RouteB(Pairs[cfg.i], cfg.dir),
+                             \* every spelling of the operator itself, and the macro with each way of passing the ellipsoids: all
+                             \* the same operator as the first spelling (bit for bit)
+                             spellings |-> {MoloSp(Pairs[cfg.i], cfg.form, sp) : sp \in Spellings(Pairs[cfg.i])},
+                             macro |-> [body |-> MacroBody(Pairs[cfg.i], cfg.form),
+                                        calls |-> {MacroCall(Pairs[cfg.i], sp) : sp \in Spellings(Pairs[cfg.i])}],
                              form |-> cfg.form, dir |-> cfg.dir, pair |-> cfg.i, class_mm |-> ClassMm(cfg.form),
                              pts |-> {<<lo, la, h>> : lo \in Lons, la \in Lats, h \in Hs}])>>)
 =============================================================================
